@@ -82,7 +82,7 @@ EMIT = ["Validate"]
 RECOVER = ["RecoverVia", "RecoverSkipUntil", "RecoverSkipRetry"]
 DECOR = ["Labelled", "MapErr"]
 CTX = ["WithCtx", "IgnoreWithCtx", "ThenWithCtx", "MapCtx", "JustCfg"]
-LEAVES = {"End", "Empty", "Any", "Just", "OneOf", "NoneOf", "Select", "Custom", "JustCfg"}
+LEAVES = {"End", "Empty", "Any", "Just", "OneOf", "NoneOf", "Select", "Custom", "JustCfg", "Skip"}
 sexp_G_HEADS = {"End", "Empty", "Any", "Just", "OneOf", "NoneOf", "Select", "Custom", "Map", "MapWith", "To", "Ignored",
            "ToSpan", "ToSlice", "Filter", "TryMap", "TryMapWith", "Validate", "Then", "IgnoreThen", "ThenIgnore",
            "DelimitedBy", "PaddedBy", "Group", "Or", "Choice", "ChoiceVec", "OrNot", "Not", "AndIs", "Rewind",
@@ -127,7 +127,7 @@ class Gen:
     def leaf(self, consuming_only=False):
         for _ in range(20):
             c = self.r.choice(self.leaves)
-            if consuming_only and c in ("End", "Empty", "JustCfg"): continue
+            if consuming_only and c in ("End", "Empty", "JustCfg", "Skip"): continue
             break
         else:
             c = "Any"
@@ -137,6 +137,7 @@ class Gen:
         if c == "Select": return ["Select", self.pred(), self.fn1()]
         if c == "Custom": return ["Custom", self.toks(1, 3), self.k()]
         if c == "JustCfg": return ["JustCfg", self.toks(1, 2)]
+        if c == "Skip": return ["Skip", self.r.randint(1, 3)]
         raise AssertionError(c)
 
     def g(self, d, consuming_only=False):
@@ -294,7 +295,7 @@ class Gen:
             elif cs < 0.78: sep = ["PaddedBy", ["Just", [COMMA]], ["RepUnit", ["IRep", ["Just", [32]], 0, "inf"]]]
             else: sep = self.g(max(d - 1, 0), True)
             base = ["ISep", item, sep, lo, hi, self.r.randint(0, 1), self.r.randint(0, 1)]
-        elif c < 0.93 and "JustCfg" in self.ctors: base = ["IRepCfg", item, lo, hi, self.r.choice([0, 0, 1, 2, 3])]
+        elif c < 0.93 and "JustCfg" in self.ctors: base = ["IRepCfg", item, lo, hi, self.r.choice([0, 0, 1, 2, 3, 4, 4, 5, 6, 7, 8, 8])]
         elif not unit: base = ["IOrNot", item]
         else: base = ["IRep", item, lo, hi]
         if unit: return base
@@ -318,6 +319,7 @@ def sample(rng, g, alpha, ctx=()):
     h = head(g)
     S = lambda x: sample(rng, x, alpha, ctx)
     if h in ("End", "Empty"): return []
+    if h == "Skip": return [rng.choice(alpha) for _ in range(g[1])]
     if h == "Any": return [rng.choice(alpha)]
     if h in ("Just", "Custom"): return list(g[1])
     if h == "JustCfg": return list(ctx) if ctx else list(g[1])
@@ -450,8 +452,8 @@ def sample_it(rng, i, alpha, ctx, exactly=None):
         lo, hi = i[2], i[3]
         if h == "IRepCfg":
             ck = i[4] if len(i) > 4 else 0
-            if ck in (0, 1): lo = len(ctx)
-            if ck in (0, 2): hi = len(ctx)
+            if ck in (0, 1, 4, 5, 8): lo = len(ctx)
+            if ck in (0, 2, 4, 6, 8): hi = len(ctx)
             if hi != "inf" and lo > hi: lo = hi
         n = exactly if exactly is not None else rng.randint(lo, (lo + 2) if hi == "inf" else hi)
         return [t for _ in range(n) for t in sample(rng, i[1], alpha, ctx)]
